@@ -236,6 +236,16 @@ CORPUS = [
           _twin_first=[["fbeta", "beta*(1+cos(t)/3)"], ["Ntot", "S+I+2*R"]], odes=[dict(state=2, eqn="-mu*R/Ntot")],
           events=[dict(rate="fbeta*S*I/Ntot", kind="periodic", trans=[dict(ty="T", o=0, d=1, mag="1")]),
                   dict(rate="gamma*I", kind="linear", trans=[dict(ty="T", o=1, d=2, mag="1")])]), "event"),
+    # a vector of states declared as the range 'y8:12' (y8, y9, y10, y11) and addressed by position in every string
+    (mg.shift_range(dict(states=["y1", "y2", "y3", "y4"], params=["beta", "gamma", "mu"], derived=[["Ntot", "y1+y2+y3+y4"]], decl="range",
+                         index_style=True, odes=[dict(state=3, eqn="-mu*y4*y1/Ntot")],
+                         events=[dict(rate="beta*y1*y2/Ntot", kind="freqdep", trans=[dict(ty="T", o=0, d=1, mag="1")]),
+                                 dict(rate="gamma*y2", kind="linear", trans=[dict(ty="T", o=1, d=2, mag="1"), dict(ty="D", o=3, d=None, mag="y3/7")]),
+                                 dict(rate="mu*y3", kind="linear", trans=[dict(ty="T", o=2, d=3, mag="1")])]), 8), "event"),
+    # a single birth process and a single explicit ODE term: the constructor is given the objects themselves now and then
+    (dict(states=["S", "I"], params=["beta", "gamma"], derived=[], decl="list", odes=[dict(state=1, eqn="-gamma*I")], _bare=True,
+          events=[dict(rate="beta*S", kind="linear", trans=[dict(ty="T", o=0, d=1, mag="1")]),
+                  dict(rate="gamma", kind="const", trans=[dict(ty="B", o=None, d=0, mag="1")])]), "legacy"),
 ]
 
 
@@ -250,8 +260,15 @@ def run(ck):
     rng = np.random.default_rng(ck.seed)
     N = ck.budget(150, 1500)
     items = [(d, r) for d, r in CORPUS]
-    for _ in range(N):
-        items.append((mg.gen_definition(rng), ROUTES[int(rng.integers(0, len(ROUTES)))]))
+    for k in range(N):
+        d = mg.gen_definition(rng)
+        if d["decl"] == "range" and len(d["states"]) >= 2:
+            # 'y1:n' addressed by position (y[0] is the first declared component) and / or numbered from 8 or 9, so that the
+            # indices of one vector cross a power of ten
+            if k % 2 == 0:
+                d["index_style"] = True
+            d = mg.shift_range(d, [1, 8, 9, 1][k % 4])
+        items.append((d, ROUTES[int(rng.integers(0, len(ROUTES)))]))
     cases, dist = [], {}
     t_end = time.time() + ck.budget(100, 700)
     for k, (d, route) in enumerate(items):
